@@ -19,30 +19,39 @@ def findOptions : List Char → Option (List Char × Char × List Char)
       else (findOptions (b :: r)).map fun (p1, p2, o) => (a :: p1, p2, o)
   | _ => none
 
+/-- the card without its options, and the options (`re_options.split`) -/
+def cutOptions (txt : List Char) : List Char × List Char :=
+  match findOptions txt with
+  | some (p1, p2, o) => (p1 ++ [p2], o)
+  | none => (txt, [])
+
 /-- the first blank-separated word and what follows it (`str.split(None, …)` peels words off like this) -/
 def word (cs : List Char) : List Char × List Char :=
   let t := cs.dropWhile cws
   (t.takeWhile (!cws ·), t.dropWhile (!cws ·))
 
+def stripSign : List Char → List Char
+  | '+' :: r => r
+  | '-' :: r => r
+  | r => r
+
+def fracPart : List Char → List Char × List Char
+  | '.' :: r => (r.takeWhile isDigit, r.dropWhile isDigit)
+  | r => ([], r)
+
+def expOk : List Char → Bool
+  | [] => true
+  | e :: r => (e == 'e' || e == 'E') && !(stripSign r).isEmpty && (stripSign r).all isDigit
+
 /-- Python's `float(tok)` on the decimal spellings `[sign] digits [. digits] [e [sign] digits]` (at least one digit in
 the mantissa): `some true` when the value is zero, `some false` when it is not, `none` when `float` raises (other
 spellings Python accepts — `inf`, `nan`, underscores — are outside the model) -/
 def floatZero? (tok : List Char) : Option Bool :=
-  let t := match tok with | '+' :: r => r | '-' :: r => r | r => r
+  let t := stripSign tok
   let ip := t.takeWhile isDigit
-  let r1 := t.dropWhile isDigit
-  let (fp, r2) := match r1 with
-    | '.' :: r => (r.takeWhile isDigit, r.dropWhile isDigit)
-    | r => ([], r)
-  if ip.isEmpty && fp.isEmpty then none else
-  let expOk : Bool := match r2 with
-    | [] => true
-    | e :: r =>
-      if e == 'e' || e == 'E' then
-        let d := match r with | '+' :: x => x | '-' :: x => x | x => x
-        !d.isEmpty && d.all isDigit
-      else false
-  if !expOk then none else some ((ip ++ fp).all (· == '0'))
+  let fr := fracPart (t.dropWhile isDigit)
+  if ip.isEmpty && fr.1.isEmpty then none else
+  if !expOk fr.2 then none else some ((ip ++ fr.1).all (· == '0'))
 
 inductive SplitErr | tooFew | notFloat | noMatch
 deriving Repr, DecidableEq
@@ -108,9 +117,8 @@ def splitCell (txt : List Char) : Except SplitErr Parts :=
         else .error .noMatch
       | _ => .error .noMatch
   else
-    let (body, opts) := match findOptions txt with
-      | some (p1, p2, o) => (p1 ++ [p2], o)
-      | none => (txt, [])
+    let body := (cutOptions txt).1
+    let opts := (cutOptions txt).2
     match floatZero? t2 with
     | none => .error .notFloat
     | some zero =>
